@@ -77,6 +77,17 @@ def run(ctx):
                 src = util.loop_source(it)
                 r = util.range_of(src) if src is not None else None
                 other_ranges.append((util.const_val(r[0]), util.const_val(r[1])) if r else None)
+    # a mutable borrow of the candidate array (or of one row) handed to a helper can rewrite slot 5 as well: the angle loops
+    # of the 5-DOF solver stop at slot 4 precisely so that J6 is delivered verbatim
+    lent = []
+    for i, j, st in five.stmts():
+        rv = st['rv']
+        if rv['k'] == 'ref' and rv.get('mut') and rv['place']['local'] == sols[0]:
+            users = [cname(callee_name(t)) for bi, t in five.calls() if any(a.get('k') in ('copy', 'move') and not a['place']['proj'] and a['place']['local'] == st['lhs']['local'] for a in t['args'])]
+            lent.append((i, j, users))
+    for i, j, users in lent:
+        ctx.violation('R06.2', 'slot5/lent-to-%s' % (users[0].split('::')[-1] if users else 'unknown'), five.where(i, j), five.path,
+                      'the candidate row is lent mutably to %s: whatever it does to the six slots also happens to the caller\'s J6' % (users or ['an unknown user']), found=str(users))
     slot5 = [w for w in writes5 if w[0] == 5]
     ok = len(slot5) == 1 and util.is_param(slot5[0][3], 3) and all(r is not None and r[1] is not None and r[1] <= 5 for r in other_ranges) and \
         not [w for w in writes5 if w[0] != 5 and False]
